@@ -9,6 +9,9 @@ From CG Require Import Model.Check.
 From CG Require Import Model.Dfa.
 From CG Require Import Spec.Choice.
 From CGgen Require Import Consts.
+From CG Require Import Model.Dot.
+From CG Require Import Spec.DotRead.
+From CG Require Import Spec.DotSpec.
 (* add new Require lines above this line *)
 Require Import ExtrOcamlBasic ExtrOcamlString.
 Extraction Language OCaml.
@@ -23,5 +26,16 @@ Separate Extraction
   Dfa.mkall
   Dfa.trans_states
   Choice.spec
+  Dot.of_dfa_with
+  Dot.of_regex_with
+  Dot.pinned
+  Dot.patched
+  DotRead.read
+  DotRead.render_label
+  DotSpec.graph_of_dfa
+  DotSpec.view
+  DotSpec.compare
+  DotSpec.gdiff_ok
+  DotSpec.regex_missing
   (* add new roots above this line *)
   Prelude.pow2.
